@@ -66,7 +66,7 @@ for _p, _profiles in {"C06": ["control"], "C07": ["control", "run", "holdpause"]
                    wall_thorough=1500))
 
 
-_add(CheckSpec(property="C27", sim="simr", profiles=["faulty", "faulty", "faultfree"], runs_quick=800, runs_thorough=40000,
+_add(CheckSpec(property="C27", sim="simr", profiles=["faulty", "armed", "faulty", "faultfree"], runs_quick=800, runs_thorough=40000,
                level="fault_enumeration", rule="(filled)", assumptions=["(filled)"], wall_quick=50, wall_thorough=1500,
                run_timeout=120))
 
